@@ -2,15 +2,18 @@
 (* Agreement of national validators with the transcriptions of National.tla:     *)
 (* N1  validate(x) accepted  <=>  AcceptN(m, compact(x)).  Spec growth beyond    *)
 (* the listed properties: disagreements are reported as observations.            *)
+(* N3  the same for the formats whose rules mention the system date (y = the     *)
+(* year the recording process saw).                                              *)
 EXTENDS National, Json, IOUtils
 Trace == ndJsonDeserialize(IOEnv.TRACE_FILE)
 VARIABLES l, nrej
 IsStrRet(r) == r.k = "ret" /\ r.t = "str"
 N1(e) == e.m \in Known => (IsStrRet(e.r) <=> AcceptN(e.m, e.c))
 N2(e) == e.m \in Necessary => (IsStrRet(e.r) => NecessaryN(e.m, e.c))
+N3(e) == e.m \in KnownClock => (IsStrRet(e.r) <=> AcceptClock(e.m, e.c, e.y))
 N0(e) == e.m \in Known \cup Necessary
-ClauseNames == <<"N0", "N1", "N2">>
-Clauses(e) == [N0 |-> N0(e), N1 |-> N1(e), N2 |-> N2(e)]
+ClauseNames == <<"N0", "N1", "N2", "N3">>
+Clauses(e) == [N0 |-> N0(e), N1 |-> N1(e), N2 |-> N2(e), N3 |-> N3(e)]
 Failing(e) == LET c == Clauses(e) IN SelectSeq(ClauseNames, LAMBDA n : ~c[n])
 Init == l = 1 /\ nrej = 0
 Step == /\ l <= Len(Trace)
